@@ -24,7 +24,8 @@ import (
 // expired by a clock step). Then two generated operations A and B run on two handles of the
 // same store (two SQLiteStore values on one file, or one MemoryStore): A is started first and
 // held at its n-th yield point - a read of the injected clock or one of the verif hook points
-// inside the store (after BEGIN IMMEDIATE, around the lease UPDATE, around COMMIT ...) - while
+// inside the store (after BEGIN IMMEDIATE, around the lease UPDATE, around COMMIT ...) or, through
+// a wrapping database/sql driver, the point before any SQL statement - while
 // B runs to completion (or until it is seen to wait for A's transaction); then A is released.
 // n is part of the generated case, so the search enumerates where A is interrupted.
 //
@@ -359,9 +360,12 @@ func iCountYields(c ICase) int {
 		label := l
 		verifhook.On(label, func() { gate.event(label) })
 	}
+	yield := gate.event
+	ySQLYield.Store(&yield)
 	gate.armed.Store(true)
 	w.exec(rA)
 	gate.armed.Store(false)
+	ySQLYield.Store(nil)
 	for _, l := range iHookLabels {
 		verifhook.On(l, nil)
 	}
@@ -393,7 +397,10 @@ func iConcurrent(c ICase, pauseAt int) iRun {
 		label := l
 		verifhook.On(label, func() { gate.event(label) })
 	}
+	yield := gate.event
+	ySQLYield.Store(&yield)
 	defer func() {
+		ySQLYield.Store(nil)
 		for _, l := range iHookLabels {
 			verifhook.On(l, nil)
 		}
@@ -559,6 +566,14 @@ func runICase(c ICase, prop string) qOutcome {
 		out.Skipped = conc.Skip
 		labels["inconclusive-time-budget"] = true
 		return finish()
+	}
+	for _, r := range append([]QRes{conc.ResA, conc.ResB}, conc.Post...) {
+		// SQLite gave up waiting for the write lock (5 s busy timeout): the machine, not the store
+		if strings.HasPrefix(r.Err, "other:") && (strings.Contains(r.Err, "locked") || strings.Contains(r.Err, "busy")) {
+			out.Skipped = "sqlite busy timeout: " + r.Err
+			labels["inconclusive-environment"] = true
+			return finish()
+		}
 	}
 	labels["pair-"+iClass(c.A)+iClass(c.B)] = true
 	labels["backend-"+c.Cfg.Backend] = true
@@ -754,6 +769,7 @@ func genICase(prop string) *rapid.Generator[ICase] {
 }
 
 func iProp(t *testing.T, prop, test string) {
+	useYieldingSQLDriver(true) // every SQL statement of the held operation is a yield point
 	gen := genICase(prop)
 	rapid.Check(t, func(rt *rapid.T) {
 		c := gen.Draw(rt, "case")
@@ -773,6 +789,8 @@ func TestProp_C14_Interleaved(t *testing.T) { iProp(t, "C14", "TestProp_C14_Inte
 func TestProp_C12_Interleaved(t *testing.T) { iProp(t, "C12", "TestProp_C12_Interleaved") }
 
 func replayInterleaved() {
+	useYieldingSQLDriver(true)
+	defer useYieldingSQLDriver(false)
 	for _, p := range []string{"C03", "C04", "C14", "C12"} {
 		test := "TestProp_" + p + "_Interleaved"
 		for _, rf := range verifkit.ReplayFiles(test) {
